@@ -90,7 +90,7 @@ func weighted(r *simrt.Rand, w map[string]int, order []string) string {
 	return order[0]
 }
 
-var stepOrder = []string{"announce", "withdraw", "wait", "peer_close", "peer_notify", "peer_silent", "fail_write",
+var stepOrder = []string{"announce", "withdraw", "wait", "peer_close", "peer_notify", "peer_silent", "fail_write", "stall",
 	"import", "export", "dispose", "static_add", "static_del", "reconnect", "raw_garbage", "keepalive", "replace"}
 
 func u32p(v uint32) *uint32 { return &v }
@@ -292,9 +292,19 @@ func (g *gen) genAttrs(pi int) *AttrSpec {
 		}
 		if r.Chance(0.4) {
 			a.Communities = []uint32{65000<<16 | uint32(r.Intn(100))}
-			if r.Chance(0.3) {
-				if wk := pick(r, []uint32{CommNoExport, CommNoAdvertise}); !g.avoidAPTrigger() {
-					a.Communities = append(a.Communities, wk)
+			if r.Chance(0.3) && !g.avoidAPTrigger() {
+				// one or both well-known communities, in any position and order
+				wks := []uint32{pick(r, []uint32{CommNoExport, CommNoAdvertise})}
+				if r.Chance(0.35) {
+					wks = []uint32{CommNoExport, CommNoAdvertise}
+					if r.Chance(0.5) {
+						wks = []uint32{CommNoAdvertise, CommNoExport}
+					}
+				}
+				if r.Chance(0.5) {
+					a.Communities = append(wks, a.Communities...)
+				} else {
+					a.Communities = append(a.Communities, wks...)
 				}
 			}
 		}
@@ -536,6 +546,19 @@ func (g *gen) workload() {
 			}
 		case "fail_write":
 			g.add(Step{GapUS: g.gap(), Kind: "fail_write", Peer: pi, N: 1 + r.Intn(2)})
+		case "stall":
+			// the neighbour stops reading for a moment: the DUT's writes to it block in the middle of
+			// whatever it is sending while route changes from the other neighbours keep arriving
+			g.add(Step{GapUS: g.gap(), Kind: "block_write", Peer: pi, On: true})
+			for k := 0; k < 1+r.Intn(4); k++ {
+				pj := r.Intn(len(g.plan.Peers))
+				if r.Chance(0.5) {
+					g.stepAnnounce(pj)
+				} else {
+					g.stepWithdraw(pj)
+				}
+			}
+			g.add(Step{GapUS: g.gap(), Kind: "block_write", Peer: pi, On: false})
 		case "import":
 			g.add(Step{GapUS: g.gap(), Kind: "import", Peer: pi, Policy: g.genPolicy(pick(r, []string{"accept", "rejectsome", "rewrite", "reject"}))})
 		case "export":
